@@ -215,6 +215,21 @@ func ProgBigID(max int32) *Schema {
 	return &Schema{ID: fmt.Sprintf("bigid-%d", max), Msgs: []*Message{root}, Root: root}
 }
 
+// ProgWide: more children than a machine word has bits: 70 singular fields (int32, every 7th a string), a packed
+// and an unpacked list and two maps that the message family fills with 70 elements each.
+func ProgWide() *Schema {
+	root := &Message{Name: "RootWide"}
+	for i := 1; i <= 70; i++ {
+		k := KInt32
+		if i%7 == 0 {
+			k = KString
+		}
+		root.Add(fld(fmt.Sprintf("w%d", i), int32(i), k))
+	}
+	root.Add(rfld("wl", 71, KInt32)).Add(rfld("ws", 72, KString)).Add(mfld("wm", 73, KInt32, KInt32)).Add(mfld("wms", 74, KString, KInt32))
+	return &Schema{ID: "wide", Msgs: []*Message{root}, Root: root}
+}
+
 // ---------- message builders
 
 // Named value for enumeration.
